@@ -364,7 +364,39 @@ func (e flattenEngine) Gen(prop, tier string, seed uint64, idx int) *runner.Case
 		b = gen.RndBundle(rng, mx)
 		name = "rnd/" + strconv.Itoa(idx)
 	}
-	return &runner.Case{Engine: "flatten", Name: name, Files: b.Files(nfObj), Root: "root.json", Opts: b.Opts(), Tags: b.TagList()}
+	c := &runner.Case{Engine: "flatten", Name: name, Files: b.Files(nfObj), Root: "root.json", Opts: b.Opts(), Tags: b.TagList()}
+	if len(c.Files) > 1 && idx%4 == 3 {
+		relocateRoot(c)
+	}
+	return c
+}
+
+// relocateRoot moves the root document into a sub-directory of its own: every reference of the root to
+// another document then climbs with "../" (auxiliary documents of W never refer to the root, they are untouched).
+func relocateRoot(c *runner.Case) {
+	root := jx.MustParse([]byte(c.Files[c.Root]))
+	var fix func(v any)
+	fix = func(v any) {
+		switch t := v.(type) {
+		case jx.Obj:
+			if r, ok := t["$ref"].(string); ok && r != "" && !strings.HasPrefix(r, "#") && !strings.HasPrefix(r, "/") && !strings.Contains(r, "://") {
+				t["$ref"] = "../" + strings.TrimPrefix(r, "./")
+			}
+			for _, x := range t {
+				fix(x)
+			}
+		case jx.Arr:
+			for _, x := range t {
+				fix(x)
+			}
+		}
+	}
+	fix(root)
+	delete(c.Files, c.Root)
+	c.Root = "api/root.json"
+	c.Files[c.Root] = string(jx.Canon(nfObj(jx.AsObj(root))))
+	c.Tags = append(c.Tags, "root-in-subdir")
+	c.Name += "/root-in-subdir"
 }
 
 func (flattenEngine) Info(prop, tier string) runner.Info {
